@@ -8,6 +8,8 @@ TRUSTED = ["python ast (stdlib)", "RxPY: Subject delivers synchronously in subsc
 def rules_for(prop):
     from .rules import mx, st, grp, lv, scan, er, ms, tm, seq, pr, ag, io, cont, num
     from functools import partial as P
+    from .engine import scoped
+    ROLL = ("rxsci/data/roll.py",)
 
     def named(f, **kw):
         g = P(f, **kw)
@@ -19,7 +21,7 @@ def rules_for(prop):
         "C04": [named(grp.rule_eq1, files=("rxsci/operators/group_by.py", "rxsci/state/memory_store.py", "rxsci/state/store.py",
                                            "rxsci/operators/multiplex.py"), min_instances=1), named(grp.rule_fw1, heads=("group_by",)), grp.rule_fl1,
                 named(lv.rule_lv, only=("group_by_mux._group_by.on_subscribe",)), ms.rule_ms],
-        "C05": [grp.rule_roll, named(grp.rule_fw1, heads=("roll_count",)), st.rule_st2_3_4, st.rule_st6,
+        "C05": [grp.rule_roll, named(grp.rule_fw1, heads=("roll_count",)), scoped(st.rule_st2_3_4, ROLL), scoped(st.rule_st6, ROLL),
                 named(lv.rule_lv, only=("roll_mux._roll.subscribe", "roll_mux._roll_count.subscribe"))],
         "C08": [tm.rule_tm123, tm.rule_tm4, tm.rule_tm5, st.rule_st5, mx.rule_mx7],
         "C09": scan.RULES,
